@@ -440,6 +440,34 @@ func (p *c16) Run(raw json.RawMessage) eng.Result {
 		case strings.Join(keys, ",") != strings.Join(want, ","):
 			report("list-when/read", "all", "wrong-entries", fmt.Sprintf("visible %v want %v", keys, want))
 		}
+		// the same entries addressed one by one: an entry the when hides is not there for Find either,
+		// neither the entry nor a leaf below it, and an edit through the path does not write it
+		wantSet := map[string]bool{}
+		for _, k := range want {
+			wantSet[k] = true
+		}
+		for i := range operands {
+			k := fmt.Sprintf("k%d", i)
+			for _, path := range []string{"lw=" + k, "lw=" + k + "/z", "lw=" + k + "/k"} {
+				if strings.HasSuffix(path, "/z") && operands[i].v == nil {
+					continue
+				}
+				var sel *node.Selection
+				var ferr error
+				fr, msg, pan := eng.Recover(func() {
+					sel, ferr = node.NewBrowser(m, store.NewRef(t.Clone()).Node()).Root().Find(path)
+				})
+				res.Evals++
+				switch {
+				case pan:
+					report("list-when/find", operands[i].class, "panic:"+fr, path+": "+msg)
+				case ferr == nil && (sel != nil) != wantSet[k]:
+					report("list-when/find", operands[i].class, fmt.Sprintf("found-%v-want-%v", sel != nil, wantSet[k]), "Find("+path+")")
+				case ferr != nil && wantSet[k]:
+					report("list-when/find", operands[i].class, "error-for-visible-entry", "Find("+path+"): "+ferr.Error())
+				}
+			}
+		}
 	}
 	// E. filter on a notification stream
 	{
